@@ -15,7 +15,7 @@ for p in $V/harmless/${HARMLESS_GLOB:-harmless-*}.diff; do
     git -C $R apply $p || { echo -e "$k\t-\tapply-failed" >> /tmp/harmlesspar/result.tsv; exit; }
     export VERIF_REPO=$R VERIF_BUILD=$W/build VERIF_SEED=$SEED
     cd $W
-    for i in 01 02 03 04 05 06 07 08 09 10 11 12 13 14 15 16 17 18 19 20; do
+    for i in ${HARMLESS_CHECKS:-01 02 03 04 05 06 07 08 09 10 11 12 13 14 15 16 17 18 19 20}; do
       out=$(timeout 2400 ./bin/check C$i --tier quick 2>&1); rc=$?
       v=$(echo "$out" | grep -m1 '^VIOLATION' || echo -)
       echo -e "$k\tC$i\t$rc\t$v" >> /tmp/harmlesspar/result.tsv
